@@ -259,6 +259,33 @@ theorem redirect_exists_partial (c : Config) (P : Params) (π : Orders) (hres : 
 example : redirectsOn exCfg ⟨[exTcp 8443], false, false, false, false, 0, [], [], [⟨[[1, 2]]⟩, ⟨[[3]]⟩]⟩ 2 = true ∧
     (certsOf exCfg exP Orders.id).isEmpty = false := by decide
 
+/-- **every interface on the HTTPS port gets its redirect** (the `bind` case, upstream issue
+    3443; what the seeded change `C11-redirdomains-overwrite` breaks).  For EVERY listener `a`
+    on the HTTPS port of a redirect-enabled server naming `d` — not just for one of them — some
+    resulting server that listens on `a`'s interface at the HTTP port holds a redirect route
+    covering `d`, without an explicit port.  Same exclusions as `redirect_exists_partial`. -/
+theorem redirect_on_every_https_interface (c : Config) (P : Params) (π : Orders) (hres : c.reserved = none)
+    {s : Server} {d : Name} {a : Addr} (hs : s ∈ c.servers) (h : redirectsOn c s d = true)
+    (ha : a ∈ s.listen) (hp : a.sp = httpsPort c)
+    (hins : (certsOf c P π).isEmpty = false ∨ ∀ s' ∈ c.servers, hasListener s'.listen (redirAddr c a) = false) :
+    ∃ kv ∈ serversOf c P π, hasListener kv.2.listen (redirAddr c a) = true ∧
+      ∃ rt ∈ kv.2.routes, rt.isRedir = true ∧ rt.covers d = true ∧ rt.port = 0 := by
+  obtain ⟨hr, hk⟩ := redirOn_of_redirectsOn h
+  obtain ⟨i, hi⟩ := exists_indexed 0 hs
+  have hmem : assocMem (mainLoop c P π).2 d a := by
+    unfold mainLoop
+    exact mainLoop_keeps_https c P (ks := (i, s)) (mem_pull.mpr hi) hr hk ha hp
+  obtain ⟨doms, hm, hdm⟩ := (mem_domainsByAddr (π := π)).mpr hmem
+  have hrs : assocMem (rsOf c P π) (redirAddr c a) (mkRedirRoute c a doms) :=
+    (mem_redirServers c π _).mpr ⟨(a, doms), hm, rfl, rfl⟩
+  obtain ⟨kv, hkv, hl, hin⟩ := serversOf_redir_complete c P π hres hrs hins
+  refine ⟨kv, hkv, hl, _, hin, mkRedirRoute_isRedir, mkRedirRoute_covers hdm, ?_⟩
+  rw [mkRedirRoute_port, hp]
+  simp [portRule]
+
+example : redirectsOn ⟨0, 0, [⟨[exTcp 443, ⟨0, [49], 443, 443⟩], false, false, false, false, 0, [], [], [⟨[[1]]⟩]⟩], [], none⟩
+    ⟨[exTcp 443, ⟨0, [49], 443, 443⟩], false, false, false, false, 0, [], [], [⟨[[1]]⟩]⟩ 1 = true := by decide
+
 /-- **position of the inserted redirects.** In every configured server of the result the
     route list is: the user routes up to and including the last one with a host matcher (none
     if no user route has one), then redirect routes, then the remaining user routes — none of
